@@ -215,17 +215,20 @@ func cmdOracle(args []string) {
 }
 
 type HOp struct {
-	Op   string `json:"op"`
-	E    int    `json:"e"`
-	N    string `json:"n"`
-	S    int    `json:"s"`
-	Ok   bool   `json:"ok"`
-	Keep bool   `json:"keep"`
-	C    int    `json:"c"`
-	Via  string `json:"via"`
-	Key  string `json:"key"`
-	H    int    `json:"h"`
-	B    bool   `json:"b"`
+	Op string `json:"op"`
+	E  int    `json:"e"`
+	N  string `json:"n"`
+	S  int    `json:"s"`
+	// Route: how a "reg" operation puts the source under the name ("" / "string": RegisterString; "template": ParseTemplate +
+	// RegisterTemplate; "compiled": RegisterCompiledTemplate; "data": LoadFromCompiledData of the serialised form)
+	Route string `json:"route"`
+	Ok    bool   `json:"ok"`
+	Keep  bool   `json:"keep"`
+	C     int    `json:"c"`
+	Via   string `json:"via"`
+	Key   string `json:"key"`
+	H     int    `json:"h"`
+	B     bool   `json:"b"`
 }
 
 type HCase struct {
@@ -265,7 +268,27 @@ func runHistory(h *Header, c *HCase, oracle map[string]OResult) (res Result) {
 		case "reg":
 			desc = fmt.Sprintf("reg(e%d,%s,src%d)", op.E, op.N, op.S)
 			trail = append(trail, desc)
-			err := eng(op.E).RegisterString(op.N, h.src(op.S))
+			var err error
+			switch op.Route {
+			case "template":
+				desc += "/template"
+				var t *twig.Template
+				if t, err = eng(op.E).ParseTemplate(h.src(op.S)); err == nil {
+					eng(op.E).RegisterTemplate(op.N, t)
+				}
+			case "compiled":
+				desc += "/compiled"
+				err = eng(op.E).RegisterCompiledTemplate(&twig.CompiledTemplate{Name: op.N, Source: h.src(op.S), LastModified: 1, CompileTime: 1})
+			case "data":
+				desc += "/data"
+				var d []byte
+				if d, err = twig.SerializeCompiledTemplate(&twig.CompiledTemplate{Name: op.N, Source: h.src(op.S), LastModified: 1, CompileTime: 1}); err == nil {
+					err = eng(op.E).LoadFromCompiledData(d)
+				}
+			default:
+				err = eng(op.E).RegisterString(op.N, h.src(op.S))
+			}
+			trail[len(trail)-1] = desc
 			if (err == nil) != op.Ok {
 				fail(i, "register-outcome", fmt.Sprint(err), fmt.Sprint(op.Ok))
 			}
